@@ -21,7 +21,7 @@ RULE = ('(a) reachable removal-enabled states of both classes (histories of 1-10
         "non-trivial = a run of >= 2 instants closed by a '-' and >= 2 pairs.")
 ASSUMPTIONS = ['e > t', 'logs are chronological and well formed (each \'-\' preceded by a \'+\' of the same pair, \'-\' later than that \'+\')',
                'node ids contain no delimiter, comment marker or whitespace; ASCII-only ids when encoding=ascii']
-BUDGET = {'quick': {'cases': 8000, 'seconds': 45}, 'thorough': {'cases': 120000, 'seconds': 540}}
+BUDGET = {'quick': {'cases': 10000, 'seconds': 45}, 'thorough': {'cases': 120000, 'seconds': 540}}
 KINDS = ['add', 'add', 'add', 'add', 'add', 'add_from', 'path', 'cycle', 'recip']
 SHRINK_KEYS = ['ops', 'log']
 TRIG = 'two_instant_run_from_two_points'
@@ -57,7 +57,7 @@ def event_log(draw, nn):
 
 
 def strategy(tier):
-    hist = gen.history(max_ops=10, rejects=False, kinds=KINDS, node_kinds=('int', 'safestr'), attrs=False)
+    hist = gen.tiered(tier, max_ops=10, rejects=False, kinds=KINDS, node_kinds=('int', 'safestr'), attrs=False)
     return st.tuples(hist, iocommon.IO_PARAMS).flatmap(
         lambda x: event_log(len(x[0]['nodes'])).map(lambda lg: dict(x[0], io=x[1], log=lg)))
 
